@@ -204,20 +204,21 @@ def geo_table(ctx):
 
 
 def run(ctx, proofs_ok):
-    vlib.correspond_stream(ctx, vlib.build_harness(ctx), big_replies(), "big", "replies larger than every internal buffer, on fresh and used connections, inside and outside MULTI")
+    h0 = vlib.build_harness(ctx)
+    vlib.correspond_stream(ctx, h0, big_replies(), "big", "replies larger than every internal buffer, on fresh and used connections, inside and outside MULTI")
     if ctx.violations:
         return
-    vlib.correspond_stream(ctx, vlib.build_harness(ctx), geo_table(ctx), "geoarith", "float subtraction / division / conversions, decimal text, geohash encode / decode / interleave on limits, neighbours of limits and random operands (real code against the model's exact arithmetic)", shrink=False)
+    vlib.correspond_stream(ctx, h0, geo_table(ctx), "geoarith", "float subtraction / division / conversions, decimal text, geohash encode / decode / interleave on limits, neighbours of limits and random operands (real code against the model's exact arithmetic)", shrink=False)
     if ctx.violations:
         return
     c1 = lambda *a: "resp c1 " + " ".join(hx(x) for x in a)
     geo_ops = ["open a mem", "conn c1", c1("SET", "s", "10"),
                c1("GEOADD", "gk", "0.0001", "0.0001", "ne", "-0.0001", "0.0001", "nw", "0.0001", "-0.0001", "se", "-0.0001", "-0.0001", "sw", "13.361389", "38.115556", "Palermo", "15.087269", "37.502669", "Catania")]
     geo_ops += geo_real_data_cases(c1) + ["dump"]
-    vlib.correspond_stream(ctx, vlib.build_harness(ctx), geo_ops, "georeal", "GEO commands on real data (neighbouring boxes, far apart), every option combination: replies against the model (members and distances relational, coordinates as bit patterns, hashes exact)")
+    vlib.correspond_stream(ctx, h0, geo_ops, "georeal", "GEO commands on real data (neighbouring boxes, far apart), every option combination: replies against the model (members and distances relational, coordinates as bit patterns, hashes exact)")
     if ctx.violations:
         return
-    vlib.correspond_stream(ctx, vlib.build_harness(ctx), quit_cases(), "quit", "QUIT, CLIENT, CONFIG, INFO, SAVE and GEOADD / GEOHASH queued in MULTI: scripted cases on four connections")
+    vlib.correspond_stream(ctx, h0, quit_cases(), "quit", "QUIT, CLIENT, CONFIG, INFO, SAVE and GEOADD / GEOHASH queued in MULTI: scripted cases on four connections")
     if ctx.violations:
         return
     apicheck.run_resp_streams(ctx, [
